@@ -342,11 +342,13 @@ func histFaultsFrom(r *Rand, n int, avail []int) []FaultSpec {
 		} else {
 			f.FP = 500 + r.Range(1, 12)
 		}
-		w := []int{5, 4, 1}
+		w := []int{5, 4, 1, 1}
 		if n > 1 && i == 0 {
-			w = []int{9, 1, 0} // the first of two faults should be survivable, or the second is never reached
+			w = []int{9, 1, 0, 0} // the first of two faults should be survivable, or the second is never reached
 		}
 		switch r.Pick(w) {
+		case 3:
+			f.Kind = "baddata"
 		case 0:
 			f.Kind = "error"
 			f.Cond = PickStr(r, []string{"e1", "my-error", "sim-fault"})
@@ -690,7 +692,11 @@ func (historyEngine) Run(ci any, st *Stats) *Violation {
 			st.Inc("fault_context_cancelled_after_return")
 		}
 		panicFired := false
+		maybePanic := false
 		for _, f := range R.Fired {
+			if f == "baddata" {
+				maybePanic = true // the interpreter may or may not trip over the malformed value
+			}
 			if f == "stderr-error" {
 				st.Inc("fault_stderr_write_error_fired")
 				fired = true
@@ -776,10 +782,10 @@ func (historyEngine) Run(ci any, st *Stats) *Violation {
 		if got := R.Env.Context(); got != ctxBefore {
 			return fail("context-not-restored", "env.Context() is %s, was %s before the call", ctxName(got), ctxName(ctxBefore))
 		}
-		if out.IsPanic && !panicFired {
+		if out.IsPanic && !panicFired && !maybePanic {
 			return fail("spurious-host-panic", "result is an internal-panic error but no panic was injected: %s", out.Msg)
 		}
-		if panicFired && !out.IsPanic {
+		if panicFired && !out.IsPanic && !maybePanic {
 			return fail("host-panic-swallowed", "an injected host panic fired but the result is %q", out.Result())
 		}
 		if rd != nil && rd.failed && len(evs) > 0 {
